@@ -17,7 +17,7 @@ CHECKS = {
         'technique': 'runtime monitor: model-based oracle over enumerated/sampled arrival schedules of the real reassembly buffer, blocking decided in a synctest bubble, under the race detector',
         'level_text': 'Executes the real stream buffer on every arrival permutation of n<=6 (quick) / n<=7 (thorough) frames x read schedules x closing/non-closing x base '
                       'sequence numbers, plus sampled permutations up to n=200, and compares every Read and every toBeClosed report with a sequential model; '
-                      'a parked reader is decided (not timed out) inside a virtual-time bubble. Exhaustive over the small-n space, sampled beyond. A concurrent part lets several goroutines (as the receive loops of several connections do) push the frames of one stream, with payloads of up to 20 kB that span several reads; the reader must see the sequence-ordered concatenation.',
+                      'a parked reader is decided (not timed out) inside a virtual-time bubble. Exhaustive over the small-n space, sampled beyond. A concurrent part lets several goroutines (as the receive loops of several connections do) push the frames of one stream, with payloads of up to 20 kB that span several reads; the reader must see the sequence-ordered concatenation. A session-level part opens a stream while the session has one connection, lets more connections join and checks the reassembled bytes when the application drains the stream with Read or with io.Copy into a slow destination (a slice handed to the destination must not change under it).',
         'level_note': 'Assumes ' + A_RACE + '; bases other than 0 rely on the field name nextRecvSeq (skipped, and reported, when absent). Wrap-around past 2^64 is outside the statement.',
         'rule': 'schedule = (arrival permutation of n frames, closing/non-closing last frame, base sequence number, '
                 'read-after-write mask, payload sizes); all n! permutations for n<=6 (quick) / n<=7 (thorough) x masks, '
@@ -33,7 +33,7 @@ CHECKS = {
         'technique': 'runtime differential monitor: real encoder/decoder vs independent reference codec and frozen golden vectors over every payload length, under the race detector',
         'level_text': 'Runs the real obfuscate/deobfuscate on every payload length 1..16132 for all four methods (both buffer placements, sequence numbers on both sides of the padding '
                       'threshold, random ids/flags/keys) and checks: own round trip, decoding by an independently written codec, decoding of reference-encoded messages with arbitrary '
-                      'padding, byte-exact equality with the reference encoder where the encoding is deterministic, the size limit, and frozen golden vectors.',
+                      'padding, byte-exact equality with the reference encoder where the encoding is deterministic, the size limit, and frozen golden vectors. For the plain method also messages without a dedicated nonce trailer (extra length 0..7), as older encoders of the same wire format emit.',
         'level_note': 'Assumes ' + A_RACE + ' and that verifkit/refcodec.go (written from the layout description, cross-checked by golden vectors frozen at the pinned commit) is a correct reading of the Cloak v2 layout.',
         'rule': 'case = (method, payload length, sequence-number class, stream id, closing flag, key, buffer placement); every length 1..max per method; '
                 'quick: one or two sequence classes per length (rotating), thorough: all nine classes and repeated padding draws; distinct by construction (enumerated); '
@@ -48,7 +48,7 @@ CHECKS = {
         'technique': 'runtime monitor: mutation of genuine messages fed to the real receive path, state-snapshot + return-value + delivery oracle, crash attribution per child process, race detector',
         'level_text': 'Feeds the real Session receive path with every single-bit flip of genuine messages (all positions for payloads <= 1000 bytes, header/tail plus sampled positions for the maximum size), '
                       'all short truncations/extensions, random multi-byte corruptions, messages sealed under other keys or methods, and arbitrary byte strings (all four methods, ordered and datagram sessions); '
-                      'a processed modification is detected by return value, by a before/after snapshot of the stream table, counters and accept queue, and by what a valid frame delivers afterwards.',
+                      'a processed modification is detected by return value, by a before/after snapshot of the stream table, counters and accept queue, and by what a valid frame delivers afterwards. After undecodable records on every connection, ordinary multi-stream traffic arriving concurrently on 2..4 connections must be delivered exactly (the oracle of C01).',
         'level_note': 'Assumes ' + A_RACE + '. Cryptographic forgery is out of reach: only malleability exercisable by editing bytes without keys is tested. State is read through the identifiers the repository tests already use (streams, acceptCh, streamCount).',
         'rule': 'case = (AEAD method, payload size in {1,2,17,100,1000,max}, sequence number in {0,3,7}) with all bit flips/truncations/extensions/corruptions of one genuine message, or a batch of random byte strings '
                 '(method x ordered/unordered); counters give the number of injections; distinct by construction; non-trivial = every case performs >= 1000 injections',
@@ -63,7 +63,7 @@ CHECKS = {
         'technique': 'runtime monitor: incremental generator-comparison oracle at the reading application over a hostile in-memory network (chosen arrival orders, segmentation, back-pressure) in a synctest bubble, forced addConn interleaving via hook, race detector',
         'level_text': 'Runs two real sessions over 1..8 TLSConn connections of the hostile network with 1..hundreds of concurrent bidirectional streams, all four methods, Write and ReadFrom paths and write sizes from 1 byte to several frames; '
                       'the harness chooses cross-connection arrival order (random merge, starved connection, newest first, LIFO) or lets goroutines race with jitter, connection adding during traffic and bounded windows; every byte read is compared with the tagged generator, '
-                      'and at quiescence (decided by synctest.Wait, not by timeouts) every stream must be complete and both sessions open. One case forces sends inside the addConn publish window through a hook; churn cases close streams from the reading side while both sides are inside large writes over window-bounded connections (a stuck-bubble watchdog reports lock cycles from goroutine dumps). A second part runs the same tagged-byte oracle through the whole path: application -> client.RouteTCP -> session -> hostile network -> server.Serve -> proxy dial -> application.',
+                      'and at quiescence (decided by synctest.Wait, not by timeouts) every stream must be complete and both sessions open. One case forces sends inside the addConn publish window through a hook; churn cases close streams from the reading side while both sides are inside large writes over window-bounded connections (a stuck-bubble watchdog reports lock cycles from goroutine dumps). A slow-consumer case leaves 20 MiB (thorough: up to 33 MiB) unread on one stream while another stream of the session must keep exchanging messages. A second part runs the same tagged-byte oracle (some applications stay silent for seconds after connecting) through the whole path: application -> client.RouteTCP -> session -> hostile network -> server.Serve -> proxy dial -> application.',
         'level_note': 'Assumes ' + A_RACE + ' and ' + A_HARNESS + '. Goroutine schedules are sampled (GOMAXPROCS sweep, jitter), not enumerated; arrival orders are sampled because Cloak picks connections at random.',
         'rule': 'case = (method, NumConn incl. singleplex, router policy or free-running with jitter/window/late connection adding, segmentation, GOMAXPROCS, stream plans with tagged up/down write-size sequences); '
                 'distinct = hash of configuration and first stream plan; non-trivial = at least one stream with >= 16 bytes each way verified byte by byte; arrival_orders counts distinct cross-connection record orders observed',
@@ -78,7 +78,7 @@ CHECKS = {
         'technique': 'runtime monitor: prefix/complete-then-error oracle on both ends of real session pairs, closing notice placed by a router that decodes the wire, parked readers decided by synctest quiescence plus 10 virtual minutes',
         'level_text': 'Two real sessions over 1..8 connections (and singleplex); one side writes B (0 bytes to several frames) and closes, or both close; the router recognises the closing record with the reference codec and delivers it before, between or after '
                       'the data on other connections; oracle: the non-closing side reads exactly B then the broken-stream error, closers read a prefix, no reader is parked after 10 virtual minutes, writes fail after a local or processed close, '
-                      'bytes that had arrived stay readable after a local Close. Further scenarios: crossing closes while both sides are blocked in large writes over window-bounded connections; a local Close whose closing-notice send fails while a Read is parked (the Read must return); and write-then-close through the whole path (RouteTCP / server / proxy side).',
+                      'bytes that had arrived stay readable after a local Close. Further scenarios: crossing closes while both sides are blocked in large writes over window-bounded connections; a local Close whose closing-notice send fails while a Read is parked (the Read must return); a local Close with several MiB of unread backlog; and write-then-close through the whole path (RouteTCP / server / proxy side).',
         'level_note': 'Assumes ' + A_RACE + ' and ' + A_HARNESS + '. Placement of the closing notice is sampled per policy (Cloak picks connections at random), not enumerated.',
         'rule': 'case = (method, NumConn, closing side opener/acceptor/both, write sizes before close, router policy close-first/close-last/random/lifo/starve, segmentation, late reader, parked local reader); '
                 'distinct = hash of the case; non-trivial = a close was issued and the other end was judged at quiescence',
@@ -91,7 +91,7 @@ CHECKS = {
         'technique': 'runtime fault injection: reset/EOF/session-Close injected at every routed record (boundary and inside header/payload/tag) of real session pairs in a synctest bubble; oracle over readers, recorded operations, connection states, stream counters and timers; forced check-then-act windows via hooks',
         'level_text': 'For each small scenario (1..4 connections, 1..6 streams in open/transfer/close phases) a fault-free run fixes the number of routed records; the run is then repeated with a reset, an EOF or a Close by either side at each record '
                       '(every boundary; quick: rotating subset of the in-record offset classes, thorough: all classes and kinds). After 10 virtual minutes the oracle demands: every reader got a prefix then an error, no recorded operation is still blocked, both sessions are closed, '
-                      'OpenStream is refused, every connection was closed by some end. Live-session invariants (stream count = open streams at quiescent points, no timer close with an open stream, singleplex closes with its stream) and two hook-forced windows (Close inside OpenStream, Close inside addConn) complete it; two Accept loops run per session and a singleplex session must refuse a second OpenStream.',
+                      'OpenStream is refused, every connection was closed by some end. Live-session invariants (stream count = open streams at quiescent points, no timer close with an open stream, singleplex closes with its stream) and two hook-forced windows (Close inside OpenStream, Close inside addConn) complete it; two Accept loops run per session and a singleplex session must refuse a second OpenStream. Every connection END must be closed by the session that owns it (also when the write of the final notice of Close itself fails), and a Close called while the path is stalled and the send window full must release blocked Read/Accept and refuse OpenStream at once.',
         'level_note': 'Assumes ' + A_RACE + ' and ' + A_HARNESS + '; a fault is modelled as TCP does it (bytes before the cut are delivered, both ends then fail). Which connection carries which record is Cloak\'s random choice, so "each connection" is covered statistically, each record index exhaustively.',
         'rule': 'case = (scenario, fault step = index of routed record, offset class in {boundary, tls header, frame header, payload, tag}, kind in {reset, eof, close by client, close by server}) plus invariant/timer/forced-window cases; '
                 'distinct = hash(scenario, fault); non-trivial = the fault struck a live session with streams in flight',
@@ -105,7 +105,7 @@ CHECKS = {
         'technique': 'runtime trace checker: every record a real session writes is decoded from a wire tap with the reference codec and checked offline against the recorded call/return history of concurrent Write/ReadFrom/Close (uniqueness, gap-freeness, contiguity, real-time order), with injected send failures; race detector as second monitor',
         'level_text': 'A real Session writes to tapped connections while 1..8 goroutines call Write on the same stream, one feeds ReadFrom, and Close comes at a random moment (1..16 streams, sizes from 1 byte to 4 frames, all methods, GOMAXPROCS sweep); '
                       'the decoded wire log must show: no (stream, seq) pair twice (nonce uniqueness), seqs exactly 0..n-1 when no send failed, each data frame a contiguous piece of one write, per-writer bytes in order, writes ordered consistently with real time, '
-                      'one closing frame numbered after every write that completed before Close. One case in five injects a send that fails after its bytes left, or a broken connection, to check "skipped but never reused". Frames of concurrent writers must not interleave within the pieces of one write, and a record of a closed stream replayed five virtual minutes later must not resurrect it.',
+                      'one closing frame numbered after every write that completed before Close. One case in five injects a send that fails after its bytes left, or a broken connection, to check "skipped but never reused". Frames of concurrent writers must not interleave within the pieces of one write, and a record of a closed stream replayed five virtual minutes later must not resurrect it. One history in six runs on a datagram-mode (unordered) session.',
         'level_note': 'Assumes ' + A_RACE + ' and ' + A_HARNESS + '. Schedules are sampled, not enumerated. Writes of a writer are matched greedily by content (sizes >= 8 bytes when several writers share a stream, so matches are unambiguous).',
         'rule': 'case = one concurrent history (method, connections, streams, writers per stream, ReadFrom on/off, Close on/off, write-size set, GOMAXPROCS, injected send failure); distinct = hash of the case; '
                 'interleavings counts distinct global orders of connection writes observed; non-trivial = at least 3 writes per writer were issued and every frame on the wire was decoded and attributed',
@@ -134,7 +134,7 @@ CHECKS = {
         'technique': 'runtime monitor on a virtual clock: exact all-intervals token-bucket bound (running-minimum formulation) over the tapped record stream of real sessions sharing one valve, plus a bounded-progress lower bound for backlogged senders',
         'level_text': '1..3 real session pairs x 1..4 connections x 1..8 single-writer streams share one LimitedValve; traffic runs for about 30 virtual seconds in a synctest bubble; sent records are timestamped at the instant their tokens were granted '
                       '(the network never blocks a write), accepted records when the receiving loop comes back for the next record; for every pair of events the bound bytes <= rate x t x 1.01 + one second\'s worth is checked exactly, '
-                      'and backlogged runs must reach rate x t x 0.99 minus one message. Rates from 6 kB/s (below one receive buffer, with small messages) to 100 MB/s; in every sixth case the peer also floods records that the session drops (undecodable bytes, genuine frames of a closed stream), which count as upload bytes all the same.',
+                      'and backlogged runs must reach rate x t x 0.99 minus one message. Rates from 6 kB/s (below one receive buffer, with small messages) to 100 MB/s; in every sixth case the peer also floods records that the session drops (undecodable bytes, genuine frames of a closed stream), which count as upload bytes all the same. Close storms (100..250 short streams closed by the server: closing notices are bytes too) and datagram-mode sessions whose senders offer three times the rate on their own schedule complete the picture.',
         'level_note': 'Assumes ' + A_RACE + ' (the rate limiter sleeps on the bubble\'s virtual clock) and ' + A_HARNESS + '. The metered unit is the record payload (what the valve counts). A second part (server package) lets several first connections of one database user race through the real dispatcher and checks the same bound over all of that user\'s sessions together.',
         'rule': 'case = (rate, sessions, connections, streams, write-size set, direction tx/rx/both, idle gap, method); distinct = hash of the case; non-trivial = the traffic volume exceeds the initial burst so that the limiter actually throttles (except the 1e8 B/s rate, which checks the burst bound only)',
         'assumptions': [A_RACE, A_HARNESS],
@@ -148,7 +148,7 @@ CHECKS = {
         'technique': 'runtime monitor: exactly-one-read-per-message oracle on the real TLSConn and WebSocketConn (real gorilla handshake) over a segmenting in-memory network, enumerated cut positions, concurrent tagged writers, race detector',
         'level_text': 'The real record layers run over hnet with the receive direction segmented: every single cut position and every pair of cut positions of a short three-message exchange, then 1-byte, random and coalescing segmentation for all lengths 0..64, '
                       'the boundary lengths up to 16640 and random lengths; each Read must return exactly the next written message. Records larger than the reader\'s buffer must produce an error, never truncated data. 2..16 goroutines write checksummed tagged messages '
-                      'through one connection with yields between writes; every received message must be whole and per-writer counters gap-free.',
+                      'through one connection with yields between writes; every received message must be whole and per-writer counters gap-free. Writes that follow a write whose transport reported an error must still be framed correctly. A second part (server package) takes the connection the real WebSocket handshake handler produces, blocks a data writer behind a bounded window and lets the peer send WebSocket pings meanwhile: every message must arrive whole.',
         'level_note': 'Assumes ' + A_RACE + ' and ' + A_HARNESS + ' (hnet Write is atomic like a TCP socket write). For WebSocket a zero-length binary message is excluded because the API cannot distinguish it from a skipped control frame.',
         'rule': 'case = (conn kind tls/ws, cut placement or segmentation policy, message lengths) / (kind, message length, reader buffer) / (kind, writers, GOMAXPROCS); distinct by construction; non-trivial = at least one message crossed a segment boundary or was written concurrently',
         'exhaustive': True, 'exhaustive_scope': 'all single and paired cut positions of the short exchange for both connection kinds',
@@ -173,7 +173,7 @@ CHECKS = {
         'technique': 'runtime monitor: mutation of genuine first packets (produced by the real client) against the real authentication on fresh states, exact integer-nanosecond window oracle, and dispatch-level observation (handshake reply vs redirect, where an admin request lands) in the real Serve loop',
         'level_text': 'Genuine first packets of firefox/chrome/safari hellos and the WebSocket GET are captured from the real client; every bit of the sealed block and every third (quick) / every (thorough) other bit is flipped, plus random multi-byte changes, truncations and foreign server keys, each on a fresh state: '
                       'acceptance requires an unmodified sealed block and an identical recovered identity. The timestamp window is swept in 1 s (thorough) / 7 s (quick) steps over +-400 s and at +-180 s +- {1 ns, 1 ms, 1 s} with four sub-second server phases against the exact integer oracle. '
-                      'Forgeries sealed with the low-order X25519 points as ephemeral key (shared secret zero) must be refused. Through the real Serve loop, 18 identity/method/session-id classes x 2 transports check that only authorised users of served methods get a handshake reply (others reach the redirect target) and that the admin API answers only to (AdminUID, session id 0).',
+                      'Forgeries sealed with the low-order X25519 points as ephemeral key (shared secret zero) must be refused. Through the real Serve loop, 18 identity/method/session-id classes x 2 transports check that only authorised users of served methods get a handshake reply (others reach the redirect target) and that the admin API answers only to (AdminUID, session id 0). Timestamps far outside the window (days, centuries, 2^40, 2^62, 2^63-1 seconds, before 1970) must be refused.',
         'level_note': 'Assumes ' + A_RACE + ' and ' + A_HARNESS + '. The X25519-ignored top bit of the ephemeral key is counted, not judged, here (it is C08\'s concern). Changes to non-authenticating parts of a packet may legitimately be accepted.',
         'rule': 'case = (base packet, shard of bit positions and random modifications) / (transport, clock offsets x server phases) / (dispatch class, transport); counters give the number of presentations; distinct by construction; non-trivial = the genuine packet is accepted first, so every rejection is due to the modification',
         'assumptions': [A_RACE, A_HARNESS],
@@ -185,7 +185,7 @@ CHECKS = {
         'technique': 'runtime monitor: model (set of accepted identity blocks) checked online against the real State with its replay-cache cleaner running on a virtual clock over multi-day histories; stress of simultaneous presentations; differential test of altered copies that still authenticate',
         'level_text': 'Histories: genuine packets (real client, clock offsets at both ends of the window) are presented to a real State inside a synctest bubble across 12 h clean-up ticks - first sightings at tick-{1,10,179,180,181,359,361} s, re-presentations at tick+{0,1,179,359} s, and random 50..200-event histories over three virtual days; '
                       'any second acceptance of a packet is a violation, and a first timely presentation must be accepted. Schedules: 2..64 goroutines present one packet at once (thousands of rounds, yields injected at the clock read): exactly one acceptance; a scan-race history parks the cleaner inside its scan (through the injected clock) while the packet is presented again. '
-                      'Variants: bit flips, random multi-bit changes and HTTP spelling variants that a fresh state still authenticates must be refused by a state that has seen the original.',
+                      'Variants: bit flips, random multi-bit changes and HTTP spelling variants that a fresh state still authenticates must be refused by a state that has seen the original. Flood histories put 3000 (thorough: some with 70000) unauthenticated first packets with distinct keys between a capture and its replay.',
         'level_note': 'Assumes ' + A_RACE + ' and ' + A_HARNESS + '. Schedules of the simultaneous presentations are sampled by stress. Only malleability reachable by editing bytes without keys is tested.',
         'rule': 'case = one history (boundary or random), one concurrency level, or one base packet x shard of variants; counters give presentations; distinct = case index; non-trivial = at least one packet was accepted once and presented again',
         'assumptions': [A_RACE, A_HARNESS],
@@ -197,7 +197,7 @@ CHECKS = {
         'technique': 'runtime differential monitor against a plain TCP relay: byte taps on the peer connection and on the connection the real Serve loop dials to the redirect target, hostile input scripts with segmentation and (virtual-time) pauses, target response scripts, not-wedged probe with a genuine client, crash attribution per child process',
         'level_text': 'Hostile connections are played against the real Serve loop in a bubble: all first-byte values, random bytes, TLS records whose declared length is below/at/above the 3000-byte buffer with bodies shorter/equal/longer than declared, browser-like hellos, genuine Cloak hellos that are bit-mutated, truncated, replayed, '
                       'from an unauthorised UID or for an unknown proxy method, HTTP requests with no/bogus/over-long headers or with further bytes in the same segment, structurally valid ClientHellos with malformed key_share/other extension bodies (placed in the browser\'s position, first and last), LF-only line ends, byte-wise slow delivery and stalls beyond the 15 s first-packet timeout; the target answers immediately, after the request, in chunks, late (after 16 s), never, or closes early. '
-                      'Oracle: target bytes are a prefix of the peer\'s stream and all of it for complete/unrecognisable first packets, peer bytes are exactly the target\'s reply, the relay is not cut while both ends stay open, closing one end closes the other, and a genuine client is still served afterwards. A concurrent variant connects ~25 hostile peers at once and matches target streams by content.',
+                      'Oracle: target bytes are a prefix of the peer\'s stream and all of it for complete/unrecognisable first packets, peer bytes are exactly the target\'s reply, the relay is not cut while both ends stay open, closing one end closes the other, and a genuine client is still served afterwards (a leaked lock shows as a lock wait nobody can end: stuck-bubble watchdog). With RedirAddr lacking a port and three listening ports every peer must be relayed to the port it connected to. A concurrent variant connects ~25 hostile peers at once and matches target streams by content.',
         'level_note': 'Assumes ' + A_RACE + ' and ' + A_HARNESS + '. Not demanded: relaying when the target cannot be dialled; refusal of over-cap users; full delivery of the reply when the peer closes first.',
         'rule': 'case = one hostile connection (input kind x segmentation x pauses x target response script); distinct = hash(kind, reply script, length, index); input_kinds counts distinct kind/response combinations; non-trivial = at least one byte was sent and both taps were compared at quiescence',
         'assumptions': [A_RACE, A_HARNESS],
@@ -209,7 +209,7 @@ CHECKS = {
         'technique': 'runtime trace checker: independent strict TLS record/ClientHello/ServerHello parser run offline over the byte taps of every client<->server connection of whole-system sessions (real client, real Serve loop)',
         'level_text': 'Whole-system direct-mode sessions (three browser signatures, configured and random server names incl. a 253-byte name, four methods, singleplex and 1..4 connections, ordered and datagram mode) carry echo traffic with write sizes from 1 byte to several frames, stream closes and session closes from either side; '
                       'every byte either side wrote is then parsed: one handshake record with a structurally valid ClientHello (SNI as configured or of the documented random shape, 32-byte session id, 32-byte x25519 share), ServerHello echoing the session id + ChangeCipherSpec + application data, '
-                      'and thereafter only type-23/version-3.3 records of length 1..16640 with no stray bytes.',
+                      'and thereafter only type-23/version-3.3 records of length 1..16640 with no stray bytes. Variants: the path server->client stops delivering for 7 virtual seconds while the server is in the middle of a record (bounded window) and resumes; a second user\'s connection is reset under the server\'s write while the observed session keeps running.',
         'level_note': 'Assumes ' + A_RACE + ' and that verifkit/reftls.go reads RFC 8446 correctly. Traffic patterns are sampled; the structural checks are exact on everything that was sent.',
         'rule': 'case = one whole-system session (configuration x traffic pattern x segmentation); distinct = hash of the configuration; hello_variants counts distinct (length, extension order) pairs; non-trivial = at least one data record beyond the handshake was parsed in each direction',
         'assumptions': [A_RACE, A_HARNESS],
@@ -221,7 +221,7 @@ CHECKS = {
         'technique': 'runtime linearizability checking (porcupine) of histories recorded at the client boundary of the real server: handshake(uid, sid) -> key | refused, close, admin changes, against the sequential model get-or-create-with-cap; forced admission rendezvous via hook; cap invariant read at quiescent points',
         'level_text': 'Whole-system rig with a bbolt user database in a bubble: bursts of 2..32 simultaneous real handshakes over 1..4 (UID, session id) pairs - or all with distinct new session ids for one user - for caps 0..4, interleaved with closures of non-last sessions and with cap/credit/expiry changes; '
                       'every connection is handshaken individually so each returned key is observed; half of the bursts park all connections between user lookup and session creation (hook) and release them together, and the user manager is wrapped to yield inside AuthoriseNewSession. '
-                      'porcupine checks each per-UID history; keys are checked for uniqueness across (UID, sid); NumSession() <= cap is asserted at every quiescent point.',
+                      'porcupine checks each per-UID history; keys are checked for uniqueness across (UID, sid); NumSession() <= cap is asserted at every quiescent point. In every third history the first handshakes of a user arrive together while the user is not active yet. The model is nondeterministic in one respect: a user without credit or past expiry may have been cut off (C16) before any of its operations.',
         'level_note': 'Assumes ' + A_RACE + ', ' + A_HARNESS + ' and porcupine v1.3.0. A refused handshake is observed as "no reply by quiescence + 20 virtual seconds". The race with the closing of a user\'s last session is excluded here by an anchor session (it belongs to C17).',
         'rule': 'case = one history (users, caps, sequence of bursts/closures/admin changes, transport, GOMAXPROCS); distinct = history index; non-trivial = the history contains at least one burst of simultaneous handshakes and was checked by porcupine',
         'assumptions': [A_RACE, A_HARNESS, 'porcupine v1.3.0'],
@@ -233,7 +233,7 @@ CHECKS = {
         'technique': 'runtime monitoring of the real user panel: stress storms under the race detector with a goroutine-dump deadlock classifier, hook-forced interleavings (overlapping upload rounds, admission vs last-session close, termination vs re-admission), ownership invariant read under the panel\'s own locks at quiescent points',
         'level_text': 'Storms of 16..64 goroutines issue GetUser/GetSession/CloseSession/TerminateActiveUser/updateUsageQueue/commitUpdate over 1..4 database users; completion is required, and if calls do not finish the verdict comes from goroutine dumps (a deadlock needs the same set of bookkeeping calls, all waiting for mutexes, in four consecutive dumps). '
                       'Three interleavings are forced deterministically with hooks: a usage collection overlapped by the commit of another round; a connection that resolved its user while the user\'s last session closes; a termination overlapped by a re-admission. '
-                      'At every quiescent point every live session handed out must be the one registered under its id in the single active record of its UID.',
+                      'A fourth forced case makes a status upload fail while usage is queued (and half of the storms run against a user manager whose uploads fail now and then): all later bookkeeping must still complete. At every quiescent point every live session handed out must be the one registered under its id in the single active record of its UID.',
         'level_note': 'Assumes ' + A_RACE + ' and ' + A_HARNESS + '. Interleavings other than the three forced ones are only sampled by the storms. The deadlock classifier uses wall-clock polling only to decide when to look; its verdict is structural (stable all-mutex wait set), anything else is reported inconclusive.',
         'rule': 'case = one storm (workers, operations, users) or one forced interleaving; distinct = case index; non-trivial = at least 960 concurrent bookkeeping calls per storm, or a hook that was actually reached',
         'assumptions': [A_RACE, A_HARNESS],
@@ -244,7 +244,7 @@ CHECKS = {
         'pkg': 'internal/server', 'test': 'TestVerif_C16', 'level': 'exploration',
         'technique': 'runtime conservation monitor: per-user record-payload volume measured on wire taps (independent TLS record splitter) compared with the credit read back from the real bbolt user database after the real periodic usage uploads, on a virtual clock; cut-off of exhausted/expired/deleted users observed at the client side and in the panel',
         'level_text': 'Whole system in a bubble: 1..4 database users plus a bypass user, 1..3 sessions each over 1..3 direct connections, echo traffic bursts of up to 150 kB interleaved with the real one-minute upload rounds, session closures (including the last one), credit changes, expiry moved into the past and deletions. '
-                      'At quiescent points after two upload intervals: nobody is charged more than the volume its own connections carried (never twice, never for another user), users that stayed active are charged exactly that volume in each direction, and users at or below zero credit, expired or deleted have lost every session within one round plus 10 virtual minutes; what is stored for a user that was cut off lies between the volume metered when the cutting round started and the total metered; overlapping upload rounds are forced through a hook.',
+                      'At quiescent points after two upload intervals: nobody is charged more than the volume its own connections carried (never twice, never for another user), users that stayed active are charged exactly that volume in each direction, and users at or below zero credit, expired or deleted have lost every session within one round plus 10 virtual minutes; what is stored for a user that was cut off lies between the volume metered when the cutting round started and the total metered; overlapping upload rounds are forced through a hook. A conservation stress lets 2..6 goroutines meter bytes on one valve while the periodic and the per-user collection run concurrently: the queue must hold exactly the metered total.',
         'level_note': 'Assumes ' + A_RACE + ' and ' + A_HARNESS + '. Direct transport only (the metered unit is exactly the TLS record payload there). Credit changes are applied only after pending usage has been uploaded, so the expected value is the last written value minus the volume since.',
         'rule': 'case = one history (users, sessions, traffic bursts, closures, admin changes, upload rounds); distinct = history index; non-trivial = at least one traffic burst was followed by an upload round and a credit comparison',
         'assumptions': [A_RACE, A_HARNESS],
@@ -257,7 +257,7 @@ CHECKS = {
         'level': 'exploration',
         'technique': 'runtime model-based monitoring: reference map compared with the full observable state of the real bbolt-backed admin API after every operation and across close/reopen; porcupine linearizability check of concurrent API clients; every record shape driven through all consumers (and through the panel as a connecting owner) with panics recovered and attributed',
         'level_text': 'Sequences of 5..60 admin operations over three UIDs (create/update with every subset of the six optional fields and values incl. 0, -1 and the int32/int64 extremes, delete, read, list, UID-mismatching, malformed and undecodable requests, close/reopen at random points) are applied to the real router through httptest; '
-                      'after each operation every user is read back and the list is compared with the reference model (unset fields read as 0 or null); a non-2xx answer must leave the state unchanged. 2..6 concurrent clients are checked by porcupine per UID. '
+                      'after each operation every user is read back and the list is compared with the reference model (unset fields read as 0 or null); a non-2xx answer must leave the state unchanged. 2..6 concurrent clients (including usage uploads, as the periodic round of the server issues them) are checked by porcupine per UID. '
                       'All 64 field subsets x value classes are pushed through GetUserInfo, ListAllUsers, AuthenticateUser, AuthoriseNewSession, UploadStatus and, in the server package, through the panel as a connecting owner; any panic is a violation.',
         'level_note': 'Assumes ' + A_RACE + ', ' + A_HARNESS + ' and porcupine v1.3.0. The model accepts either null or 0 for a field that was never written.',
         'rule': 'case = one operation sequence / one consumer sweep over all field subsets / one concurrent history / one block of owner connections; distinct = case index (owner part: enumerated record shapes); non-trivial = every sequence contains at least one accepted write followed by a full-state comparison',
